@@ -330,6 +330,23 @@ func (e *Engine) frameViolations(fn *ssa.Function) []frameViolation {
 						}
 					}
 				}
+				// the address of a component of a shared object handed to code outside /repo (atomic.Value.Store,
+				// sync.Map, sync.Once, ...): the callee may write through it -- a cache kept behind a library type
+				// instead of a plain field. Locks are the business of lock-dominates.
+				if callee, ok := x.Call.Value.(*ssa.Function); ok && (callee.Pkg == nil || !inRepoPkg(callee.Pkg.Pkg)) && !fnInRepo(callee) {
+					switch callee.String() {
+					case "(*sync.Mutex).Lock", "(*sync.Mutex).Unlock", "(*sync.RWMutex).Lock", "(*sync.RWMutex).Unlock", "(*sync.RWMutex).RLock", "(*sync.RWMutex).RUnlock":
+					default:
+						for _, a := range x.Call.Args {
+							switch a.(type) {
+							case *ssa.FieldAddr, *ssa.IndexAddr:
+								if !freshOrigin(a, map[ssa.Value]bool{}) {
+									add(x.Pos(), "hands the address of shared memory to %s (may be written through)", callee.String())
+								}
+							}
+						}
+					}
+				}
 			case *ssa.Go:
 				add(x.Pos(), "starts a goroutine")
 			case *ssa.Send:
